@@ -52,14 +52,20 @@ Proof.
   { unfold file_of. destruct (c_filemode (k_cfg k)) eqn:Efm; [reflexivity|].
     destruct (extra_path sxc); [|reflexivity]. apply translate_path_spec. now apply Hroot. }
   rewrite <- Hfile. destruct (file_of (k_cfg k) sxc) as [p|] eqn:Ef.
-  - cbn [o_init negb o_opened o_matches o_class o_body subset_of_one orb].
-    rewrite eqb_str_refl. cbn [andb app].
-    assert (Hfm : (c_filemode (k_cfg k) && negb (forallb (eqb_str (c_target (k_cfg k))) [p])) = false).
+  - assert (Hfm : (c_filemode (k_cfg k) && negb (forallb (eqb_str (c_target (k_cfg k))) [p])) = false).
     { unfold file_of in Ef. destruct (c_filemode (k_cfg k)); [|reflexivity].
       inversion Ef; subst. cbn. now rewrite eqb_str_refl. }
-    rewrite Hfm. cbn [app].
-    specialize (Htab p (or_introl eq_refl)). unfold table_open, serve. rewrite Hv.
-    destruct (table_lookup (k_table k) p) as [a|]; [|congruence].
-    destruct a; cbn [class_of body_of]; cbn; rewrite ?eqb_str_refl; try reflexivity.
-  - cbn. rewrite andb_false_r. reflexivity.
+    specialize (Htab p (or_introl eq_refl)).
+    destruct (k_cached k) eqn:Eca.
+    + cbn [o_init negb o_opened o_matches o_class o_body subset_of_one orb andb app forallb].
+      rewrite andb_false_r. cbn [app].
+      unfold table_open, serve. rewrite Hv.
+      destruct (table_lookup (k_table k) p) as [a|]; [|congruence].
+      destruct a; cbn [class_of body_of]; cbn; rewrite ?eqb_str_refl; try reflexivity.
+    + cbn [o_init negb o_opened o_matches o_class o_body subset_of_one orb].
+      rewrite eqb_str_refl. cbn [andb app]. rewrite Hfm. cbn [app].
+      unfold table_open, serve. rewrite Hv.
+      destruct (table_lookup (k_table k) p) as [a|]; [|congruence].
+      destruct a; cbn [class_of body_of]; cbn; rewrite ?eqb_str_refl; try reflexivity.
+  - destruct (k_cached k); cbn; rewrite ?andb_false_r; reflexivity.
 Qed.
